@@ -53,6 +53,36 @@ def agree(case, impl, model):
             if v != v or abs(exact(v) - Fraction(n, d)) > scale * Fraction(1, 2 ** 40):
                 return False
         return True
+    if head in ("linspace_a", "geomspace_a"):
+        st = [int(x) for x in t[1].split(":", 1)[1].split(",")]
+        sp = [int(x) for x in t[2].split(":", 1)[1].split(",")]
+        num, ep = int(t[3][1:]), t[4] == "z1"
+        k = max(len(st), len(sp))
+        st, sp = (st * k if len(st) == 1 else st), (sp * k if len(sp) == 1 else sp)
+        if len(st) != len(sp):
+            return impl.startswith("err(")          # start / stop of different lengths: an error value, not a panic
+        if head == "geomspace_a" and any(v == 0 for v in st + sp):
+            return impl.startswith("err(")
+        if "|" not in impl:
+            return False
+        shp, _, bits_ = impl.partition("|")
+        vals = f64s(bits_)
+        if vals is None or shp != f"{num}x{k}" or len(vals) != num * k:
+            return False
+        if num < 2:
+            return True
+        div = (num - 1) if ep else num
+        for i in range(num):
+            for j in range(k):
+                if head == "linspace_a":
+                    want = st[j] + (sp[j] - st[j]) * i / div
+                else:
+                    if (st[j] > 0) != (sp[j] > 0):
+                        continue
+                    want = abs(st[j]) * (abs(sp[j]) / abs(st[j])) ** (i / div) * (1 if st[j] > 0 else -1)
+                if abs(vals[i * k + j] - want) > 1e-9 * max(abs(want), 1e-300) and abs(vals[i * k + j] - want) > 1e-12:
+                    return False
+        return True
     if head == "logspace_a":
         # one sequence per (start, stop, base) triple: column j is base[j] ** (evenly spaced exponents from start[j])
         st = [int(x) for x in t[1].split(":", 1)[1].split(",")]
@@ -231,6 +261,11 @@ def gen(seed, tier):
             for ep in (0, 1):
                 b = "n" if base is None else arr([len(base)], base)
                 out.append(f"logspace_a {arr([len(st)], st)} {arr([len(sp)], sp)} z{num} z{ep} {b}")
+    for st, sp in (([0, 1, 2], [2, 3, 4]), ([1, 2], [8, 64]), ([1], [4, 16]), ([3, 5], [7]), ([1, 2, 3], [4, 5]), ([2], [2]), ([1, 1], [2, 3, 4])):
+        for num in (1, 2, 3, 5):
+            for ep in (0, 1):
+                out.append(f"linspace_a {arr([len(st)], st)} {arr([len(sp)], sp)} z{num} z{ep}")
+                out.append(f"geomspace_a {arr([len(st)], st)} {arr([len(sp)], sp)} z{num} z{ep}")
     # integer element types: negative exponents (values below 1 become 0), values beyond the type's range
     for ty in ("i8", "i16", "i32", "i64", "u8"):
         for (a, b) in ((-2, 2), (0, 3), (-3, 0), (1, 4), (2, -2), (0, 0), (-1, 5)):
